@@ -226,6 +226,17 @@ func (sc *scenario) build(maxEpoch int) {
 	}
 }
 
+// restart reloads the node from the simulated disk. Blocks that are not
+// finalised live in memory only, so the base chain is imported again (as a
+// syncing node would); the announced epoch data must come back from the disk.
+func (sc *scenario) restart() {
+	sc.n.open(false)
+	for _, cb := range sc.chain[1:] {
+		sc.n.importBlock(cb.hdr)
+	}
+	synctest.Wait()
+}
+
 // ---- authoring -------------------------------------------------------------
 
 // honestClaim runs the node's own slot lottery for every authority (starting
@@ -315,10 +326,9 @@ func (sc *scenario) buildBlock(d *draft) built {
 		sd.ConsensusEngineID = types.ConsensusEngineID{'a', 'u', 'r', 'a'}
 	}
 	b.seal = sd.Data
-	h := mk(0)
-	if err := h.Digest.Add(sd); err != nil {
-		panic(err)
-	}
-	b.hdr = h
+	// NewHeader caches the hash, so the sealed header is built in one go (a
+	// header whose cached hash does not match its content would be an artefact)
+	add(sd)
+	b.hdr = mk(0)
 	return b
 }
